@@ -92,13 +92,16 @@ func (g *gen) cfg(i int) Cfg {
 	if g.rng.Chance(1, 12) {
 		c.Top = 3
 	}
+	if g.rng.Chance(1, 4) {
+		c.Stor = Mod{0, 1 + g.rng.Intn(2)}
+	}
 	return c
 }
 
 // inject puts one fault somewhere into (c, e).
 func (g *gen) inject(c *Cfg, e *Env) {
 	for try := 0; try < 8; try++ {
-		switch g.rng.Intn(10) {
+		switch g.rng.Intn(11) {
 		case 0:
 			c.Top = 1 + g.rng.Intn(2)
 			return
@@ -153,6 +156,9 @@ func (g *gen) inject(c *Cfg, e *Env) {
 		case 8:
 			e.Post = true
 			return
+		case 10: // the storage module fails
+			c.Stor = Mod{1 + g.rng.Intn(4), 1 + g.rng.Intn(2)}
+			return
 		case 9: // the admin routers cannot be provisioned (needs the endpoint enabled)
 			if !g.admOn {
 				continue
@@ -164,7 +170,7 @@ func (g *gen) inject(c *Cfg, e *Env) {
 }
 
 func cloneCfg(c Cfg) Cfg {
-	d := Cfg{c.Top, append([]Mod(nil), c.Logs...), nil}
+	d := Cfg{c.Top, append([]Mod(nil), c.Logs...), nil, c.Stor}
 	for _, a := range c.Apps {
 		a.Listen = append([]int(nil), a.Listen...)
 		a.Mods = append([]Mod(nil), a.Mods...)
@@ -253,6 +259,11 @@ func (g *gen) history(maxLen int) []Op {
 		default:
 			c := g.cfg(i)
 			e := Env{Force: g.rng.Chance(2, 3)}
+			if g.rng.Chance(1, 3) {
+				// through POST /load (JSON or the abstract-text adapter), forced or not
+				e.Via = 2 + g.rng.Intn(4)
+				e.Force = e.Via%2 == 1
+			}
 			faulty := g.rng.Chance(55, 100)
 			if faulty {
 				g.inject(&c, &e)
@@ -292,7 +303,7 @@ func (g *gen) enumerated() [][]Op {
 	}
 	var out [][]Op
 	add := func(c Cfg, e Env) {
-		e.Force = true
+		e.Force = e.Via == 0 || e.Via%2 == 1
 		on := 0
 		if e.Adm >= 1 {
 			on = 1
@@ -309,6 +320,31 @@ func (g *gen) enumerated() [][]Op {
 	add(next(), Env{Adm: 1})
 	add(next(), Env{Adm: 2})
 	add(next(), Env{Adm: 1, Post: true})
+	for v := 2; v <= 5; v++ {
+		add(next(), Env{Via: v})
+	}
+	for f := 0; f <= 4; f++ {
+		c := next()
+		c.Stor = Mod{f, 2}
+		add(c, Env{})
+	}
+	{
+		// a storage module, and a failure after the storage step: in an app, at Start, post-start
+		c := next()
+		c.Stor = Mod{0, 1}
+		c.Apps[1].Fault = 4
+		add(c, Env{})
+		c = next()
+		c.Stor = Mod{0, 1}
+		c.Apps[1].Fault = 5
+		add(c, Env{})
+		c = next()
+		c.Stor = Mod{0, 1}
+		add(c, Env{Post: true})
+		c = next()
+		c.Stor = Mod{0, 2}
+		out = append(out, []Op{{Kind: 'L', Cfg: cloneCfg(base), Env: Env{Force: true}}, {Kind: 'V', Cfg: c}, {Kind: 'L', Cfg: cloneCfg(base), Env: Env{}}})
+	}
 	for t := 1; t <= 3; t++ {
 		c := next()
 		c.Top = t
